@@ -356,6 +356,16 @@ type step struct {
 	areal  bool  // active health checks driven by K steps, thresholds aP / aF
 	aP, aF int
 	hok    bool // H step: the health endpoint passes (true) / fails
+	// active expectations of an L step with 14 fields (healthchecks.go ActiveHealthChecks):
+	aExp  int  // expect_status (0 = not set; < 100 = a class)
+	aBody bool // expect_body `^UP`
+	aMax  int  // max_size (0 = not set)
+	aHdr  bool // headers: X-Verif-Hc: yes
+	// H step with 5 fields: the health endpoint scripted in full
+	hfull  bool
+	hstat  int
+	hbody  int  // 0 "DOWN", 1 "UP", 2 "UPDATE"
+	hneeds bool // answers 403 without the header X-Verif-Hc: yes
 	get    bool
 	rid    int
 	out    string
@@ -415,6 +425,19 @@ func answerStatus(out string) int {
 // statusTable: the unhealthy_status lists a load step can choose from (same table in Driver.lean).
 var statusTable = [][]int{nil, {500}, {500, 5}, {5}, {502, 404}, {4, 429, 503}, {50}, {200, 2}}
 
+// the expect_status values of an L step / the statuses and bodies of a scripted health endpoint
+// (same tables in Driver.lean)
+var expectTable = map[int]bool{0: true, 2: true, 3: true, 4: true, 5: true, 200: true, 201: true, 301: true, 403: true, 404: true, 503: true}
+var probeStatusTable = map[int]bool{200: true, 201: true, 301: true, 404: true, 503: true}
+var probeBodies = []string{"DOWN", "UP", "UPDATE"}
+
+// probe: what a scripted health endpoint answers
+type probe struct {
+	status int
+	body   string
+	needs  bool
+}
+
 func parseStep(s string, K int) (st step, ok bool) {
 	f := strings.Split(s, ":")
 	if len(f[0]) != 1 {
@@ -423,6 +446,19 @@ func parseStep(s string, K int) (st step, ok bool) {
 	st.op = f[0][0]
 	switch st.op {
 	case 'L', 'Y':
+		if len(f) == 14 && st.op == 'L' {
+			// fields 11..14: what the active checks driven by the schedule expect of an answer
+			es, ok1 := num(f[10])
+			eb, ok2 := num(f[11])
+			mx, ok3 := num(f[12])
+			hd, ok4 := num(f[13])
+			l, okl := num(f[9])
+			if !ok1 || !ok2 || !ok3 || !ok4 || !okl || l < 4 || l > 7 || !expectTable[es] || eb > 1 || mx > 100 || hd > 1 {
+				return st, false
+			}
+			st.aExp, st.aBody, st.aMax, st.aHdr = es, eb == 1, mx, hd == 1
+			f = f[:10]
+		}
 		if len(f) != 8 && !((len(f) == 9 || len(f) == 10) && st.op == 'L') && !(len(f) == 9 && st.op == 'Y') {
 			return st, false
 		}
@@ -533,6 +569,17 @@ func parseStep(s string, K int) (st step, ok bool) {
 		st.fail = f[1] == "1"
 		return st, true
 	case 'H':
+		if len(f) == 5 {
+			// H:<k>:<status>:<body>:<hdr>: the health endpoint scripted in full
+			var o1, o2, o3, o4 bool
+			st.key, o1 = num(f[1])
+			st.hstat, o2 = num(f[2])
+			st.hbody, o3 = num(f[3])
+			var hd int
+			hd, o4 = num(f[4])
+			st.hfull, st.hneeds = true, hd == 1
+			return st, o1 && o2 && o3 && o4 && st.key < K && probeStatusTable[st.hstat] && st.hbody <= 2 && hd <= 1
+		}
 		if len(f) != 3 || (f[2] != "0" && f[2] != "1") {
 			return st, false
 		}
@@ -688,6 +735,8 @@ type backend struct {
 	old    []*http.Server
 	health atomic.Int64 // active health checks served
 	hbad   atomic.Bool  // the scripted health endpoint fails
+	probe  atomic.Pointer[probe] // the health endpoint scripted in full (wins over hbad)
+	moved  atomic.Bool // a health check followed the endpoint's redirect
 }
 
 type shadowFail struct {
@@ -814,14 +863,69 @@ func (b *backend) closeAll() {
 	b.old = nil
 }
 
+// curProbe: what the health endpoint answers now: as scripted in full, else 503 "DOWN" / 200 "UP"
+func (b *backend) curProbe() probe {
+	if p := b.probe.Load(); p != nil {
+		return *p
+	}
+	if b.hbad.Load() {
+		return probe{503, "DOWN", false}
+	}
+	return probe{200, "UP", false}
+}
+
+// activeVerdict: the oracle's own reading of healthchecks.go doActiveHealthCheck — would a check
+// of a handler with the expectations of st against backend b pass now?
+func activeVerdict(st *step, b *backend) bool {
+	if b.srv == nil {
+		return false // the request fails
+	}
+	pr := b.curProbe()
+	code := pr.status
+	if pr.needs && !st.aHdr {
+		code = 403
+	}
+	if st.aExp > 0 {
+		if !(code == st.aExp || (st.aExp < 100 && code/100 == st.aExp)) {
+			return false
+		}
+	} else if code < 200 || code >= 300 {
+		return false
+	}
+	if st.aBody {
+		body := pr.body
+		if st.aMax > 0 && len(body) > st.aMax {
+			body = body[:st.aMax]
+		}
+		if !strings.HasPrefix(body, "UP") {
+			return false
+		}
+	}
+	return true
+}
+
 func (b *backend) ServeHTTP(w http.ResponseWriter, r *http.Request) {
 	if r.URL.Path == "/verif-hc" {
 		// an active health check of a configuration whose checks the schedule drives: the answer
 		// is what the schedule last said for this backend
-		if b.hbad.Load() {
-			w.WriteHeader(503)
+		pr := b.curProbe()
+		status := pr.status
+		if pr.needs && r.Header.Get("X-Verif-Hc") != "yes" {
+			status = 403
 		}
-		w.Write([]byte("health"))
+		if status == 301 {
+			w.Header().Set("Location", "/verif-hc-moved")
+		}
+		w.Header().Set("Content-Length", strconv.Itoa(len(pr.body)))
+		w.WriteHeader(status)
+		w.Write([]byte(pr.body))
+		return
+	}
+	if r.URL.Path == "/verif-hc-moved" {
+		// only reached if the checker followed a redirect (follow_redirects is off: it must not)
+		b.moved.Store(true)
+		w.WriteHeader(200)
+		w.Write([]byte("UP"))
 		return
 	}
 	if r.URL.Path == "/verif-health" {
@@ -1002,6 +1106,22 @@ func (k *kase) handlerJSON(st step, bad bool) []byte {
 		if st.aF != 1 {
 			ac["fails"] = st.aF
 		}
+		if st.aExp != 0 {
+			ac["expect_status"] = st.aExp
+			k.tag("active-expect-status")
+		}
+		if st.aBody {
+			ac["expect_body"] = "^UP"
+			k.tag("active-expect-body")
+		}
+		if st.aMax != 0 {
+			ac["max_size"] = st.aMax
+			k.tag("active-max-size")
+		}
+		if st.aHdr {
+			ac["headers"] = map[string][]string{"x-verif-hc": {"yes"}} // canonicalised by Provision
+			k.tag("active-headers")
+		}
 		hc["active"] = ac
 		m["health_checks"] = hc
 		k.tag("active-health-checks-modelled")
@@ -1085,6 +1205,17 @@ func (k *kase) viaCaddyfile(st step) (map[string]any, bool) {
 		if st.aF != 1 {
 			fmt.Fprintf(&b, "\thealth_fails %d\n", st.aF)
 		}
+		if st.aExp >= 100 {
+			fmt.Fprintf(&b, "\thealth_status %d\n", st.aExp)
+		} else if st.aExp > 0 {
+			fmt.Fprintf(&b, "\thealth_status %dxx\n", st.aExp)
+		}
+		if st.aBody {
+			b.WriteString("\thealth_body ^UP\n")
+		}
+		if st.aHdr {
+			b.WriteString("\thealth_headers {\n\t\tX-Verif-Hc yes\n\t}\n")
+		}
 	}
 	if !st.closeS {
 		b.WriteString("\tstream_close_delay 1h\n")
@@ -1104,6 +1235,14 @@ func (k *kase) viaCaddyfile(st step) (map[string]any, bool) {
 	if err := json.Unmarshal(raw, &m); err != nil {
 		k.infra = "caddyfile: " + err.Error()
 		return nil, false
+	}
+	if st.areal && st.aMax != 0 {
+		// max_size has no Caddyfile subdirective: set on the adapted JSON
+		if hc, _ := m["health_checks"].(map[string]any); hc != nil {
+			if ac, _ := hc["active"].(map[string]any); ac != nil {
+				ac["max_size"] = st.aMax
+			}
+		}
 	}
 	return m, true
 }
@@ -1167,7 +1306,13 @@ func (k *kase) activeRound(c *cfgGen) {
 	}
 	for i, o := range c.objs {
 		key := c.st.keys[i]
-		pass := k.backends[key].srv != nil && !k.backends[key].hbad.Load()
+		if k.backends[key].moved.Load() {
+			k.fail("active-check-followed-redirect", fmt.Sprintf("follow_redirects is off, yet a health check of backend %d followed the 301 of its endpoint", key))
+		}
+		pass := activeVerdict(&c.st, k.backends[key])
+		if pass != (k.backends[key].srv != nil && k.backends[key].curProbe().status/100 == 2) {
+			k.tag("active-verdict-differs-from-plain-2xx")
+		}
 		if pass {
 			k.aPass[o]++
 			if k.aPass[o] >= c.st.aP && c.adown[i] {
@@ -1775,11 +1920,19 @@ func (p *prop) runSched(K int, src stepSource, U time.Duration, cf, ph bool) (im
 				k.raced = true
 			}
 		case 'H':
+			if st.hfull {
+				k.backends[st.key].probe.Store(&probe{st.hstat, probeBodies[st.hbody], st.hneeds})
+				k.backends[st.key].hbad.Store(false)
+				k.tag("health-endpoint-scripted-in-full")
+				ev = "-"
+				break
+			}
 			if k.backends[st.key].hbad.Load() == !st.hok {
 				ok = false
 				break
 			}
 			k.backends[st.key].hbad.Store(!st.hok)
+			k.backends[st.key].probe.Store(nil)
 			ev = "-"
 		case 'K':
 			if k.cur == nil || k.cur.canceled || !k.cur.st.areal {
